@@ -157,7 +157,7 @@ pub fn run_inproc(prop: &str, ctx: &Ctx, run: &mut PropRun) {
         return;
     };
     let announce = scratch().join("announce");
-    let budget = Duration::from_secs(ctx.tier.pick(1200, 6 * 3600));
+    let budget = Duration::from_secs(ctx.tier.pick(480, 6 * 3600));
     let mut skip: Vec<u64> = vec![];
     let mut crash_failures: Vec<Failure> = vec![];
     for _attempt in 0..4 {
